@@ -500,8 +500,7 @@ class The(ResultQuantifier[T]):
                 result.update(sources)
             else:
                 raise MultipleSolutionFound(result, sol)
-        if result is None:
-            self._is_false_ = True
+        self._is_false_ = result is None
         if self._is_false_:
             if self._yield_when_false_:
                 result = sources
